@@ -39,6 +39,7 @@ class A(Adapter):
             (7, 7, 2, 2, 2, True, 80, True, True, 1.0),       # grid observer, fov = grid, penalty, normalised
             (8, 3, 2, 3, 2, False, 120, False, True, 0.0),    # vector observer, fov < grid
             (9, 2, 4, 3, 4, True, 3, False, False, 0.0),      # four agents, tiny time limit
+            (6, 3, 2, 2, 2, False, 9, False, False, 1),       # raw reward with the penalty given as a Python int (nothing else makes the reward a float)
         ]
         if tier != "quick":
             rows += [
